@@ -352,6 +352,7 @@ class SimSolver:
                                                    the solve "takes" D simulated seconds: if the max_seconds that
                                                    the caller forwarded is < D the time-out status is reported
       optional "preprocess": 0|1|-1, "cuts": 0     forced on the model before solving (discriminator for CBC's own faults)
+      optional "max_nodes": N                      branch-and-bound node limit handed to the real solve (deterministic work bound)
       optional "x_noise": {"seed":s,"eps":e}       the solution values read back through mip.Var.x are off by up to e (< the solver's
                                                    integrality tolerance, CBC: 1e-6) in a direction fixed by (s, variable index): a MIP
                                                    solver returns integer variables only up to that tolerance (0.9999999 for 1). The
@@ -363,6 +364,7 @@ class SimSolver:
         self.calls = 0
         self.fired = {}
         self.last_forwarded_max_seconds = None
+        self.last_real_status = None
         self._noise_counted = False
         self._installed = False
 
@@ -421,8 +423,13 @@ class SimSolver:
         if "cuts" in m:
             model.cuts = m["cuts"]          # 0 = no cut generation (plain branch and bound)
         st = mip.OptimizationStatus
+        if "max_nodes" in m:
+            # a deterministic bound on the real solver's work (its clock is real, its node count is not)
+            kwargs["max_nodes"] = m["max_nodes"]
+        self.last_real_status = None
         if mode == "real":
-            return self._orig(model, *args, **kwargs)
+            self.last_real_status = self._orig(model, *args, **kwargs)
+            return self.last_real_status
         if mode == "real_then_status":
             self._orig(model, *args, **kwargs)
             self._fire("solver_status_" + m["status"])
